@@ -308,5 +308,5 @@ def run(facts, tier):
                             "attached elsewhere and loses its order key (or its place) there" % (path, bad), g["file"], g["line"], {}))
     r12_7(facts, res)
     import staleidx
-    staleidx.rule(facts, res, "R12-5", lambda f: f["crate"] in ("xml_info", "xml_dom"), floor=7)
+    staleidx.rule(facts, res, "R12-5", lambda f: f["crate"] in ("xml_info", "xml_dom"), floor=5)
     return res
